@@ -18,7 +18,8 @@ class InjectedIOError(OSError):
 
 
 class Injector:
-  """Counts effects; carries at most one fault: ('crash', i) | ('crash_lose', i) | ('crash_write', i, p) | ('error', i).
+  """Counts effects; carries at most one fault: ('crash', i) | ('crash_lose', i) | ('crash_write', i, p) | ('error', i) |
+  ('interrupt', i) | ('exit', i).
 
   'crash': everything written so far reached the file. 'crash_lose': process death while data still sat in the
   user-space buffers of the open write handles - every open handle keeps only what it had explicitly flushed.
@@ -45,6 +46,11 @@ class Injector:
       if f[0] in ('crash', 'crash_lose'):
         self.die(lose=f[0] == 'crash_lose')
         raise Crash('crash before effect %d %s %s%s' % (i, kind, name, ' (unflushed data lost)' if f[0] == 'crash_lose' else ''))
+      if f[0] in ('interrupt', 'exit'):
+        # a signal delivered as a Python exception (Ctrl-C -> KeyboardInterrupt, SIGTERM handler / sys.exit -> SystemExit):
+        # the process is still alive while it unwinds, so `except` / `finally` / `with` handlers of the library run and
+        # may perform further effects before the process ends
+        raise (KeyboardInterrupt if f[0] == 'interrupt' else SystemExit)('injected %s before effect %d %s %s' % (f[0], i, kind, name))
       if f[0] == 'error':
         raise InjectedIOError('injected I/O error at effect %d %s %s' % (i, kind, name))
       if f[0] == 'crash_write':
